@@ -29,6 +29,7 @@ type DoubleFs struct {
 	Closes  int
 	Tick    int          // control operations seen so far
 	FailAt  map[int]bool // control operation indices that fail with EIO
+	CloseErr bool        // every Close reports EIO (after releasing the handle)
 	BadFrom map[string]int64 // absolute file name -> first unreadable offset
 	MaxRead int              // >0: reads return at most this many bytes (short reads)
 	ShortAt map[string]int   // absolute file name -> positional reads of this file return at most this many bytes, without an error
@@ -218,8 +219,13 @@ func (f *DoubleFile) Close() error {
 		delete(f.d.live, f)
 		f.d.Closes++
 	}
+	closeErr := f.d.CloseErr
 	f.d.mu.Unlock()
-	return f.File.Close()
+	err := f.File.Close()
+	if closeErr && err == nil { // the handle is released all the same; Close only reports a failure (a deferred write-back error, say)
+		return &os.PathError{Op: "close", Path: f.name, Err: syscall.EIO}
+	}
+	return err
 }
 
 func (f *DoubleFile) load() error {
